@@ -17,7 +17,7 @@ RULE = ("states = distinct (salt, declaration order, weight vector) programs com
         "transitions = evaluations, each compared with md5/UTF-8/sorted-names/first-32-bits recomputed "
         "independently and located in the exact (Fraction) partition; plus known answers of the position function")  # fmt: skip
 
-SALTS = [None, "", "s", "exp-1", "é", "日本", "🎲"]
+SALTS = [None, "", "s", "exp-1", "é", "日本", "🎲", "e\u0301", "\u212b\u2126", "\u1100\u1161", "q\u0323\u0307"]
 NAMES = ["a", "ab", "b", "ba"]
 # Mixed-case / underscore / digit names.  "Alphabetical order" is taken as code-point order of the
 # field names (what sorted() gives and what every release so far has published): any other order for
@@ -45,6 +45,14 @@ def _work(units):
     acc = progcheck.Acc()
     wv = weight_vectors()
     for salt, order, wname, tier in units:
+        if order == "COLLIDE":
+            # unit ids whose hash KEYS collide under crc32 (and have equal length), evaluated one after the other
+            from ..enum import collide
+
+            for pre, a, b in collide.crc32_id_pairs():
+                ast = ("prog", "e", pre or None, ("uid",), ("ret", tuple(wv[wname])))
+                progcheck.check_prog(acc, ast, [{"uid": a}, {"uid": b}, {"uid": a}, {"uid": b}], f"scheme:collide:{wname}")
+            continue
         ast = ("prog", "e", salt, tuple(order), ("ret", tuple(wv[wname])))
         envs = [dict(zip(order, vs)) for vs in _values_for(len(order), tier)]
         progcheck.check_prog(acc, ast, envs, f"scheme:{wname}", want_sample=(wname == "123" and len(order) == 2))
@@ -53,7 +61,7 @@ def _work(units):
 
 def run(res, tier):
     orders = [p for k in (1, 2, 3) for p in permutations(NAMES, k)] + [p for ns in NAMES2 for p in permutations(ns)]
-    units = [(s, o, w, tier) for s in SALTS for o in orders for w in weight_vectors()]
+    units = [(s, o, w, tier) for s in SALTS for o in orders for w in weight_vectors()] + [(None, "COLLIDE", w, tier) for w in weight_vectors()]
     for w in pmap(_work, permuted(units, "c12"), chunk=8):
         res.merge_worker(w)
     # known answers of the position function (named in the anchors; skipped if it is renamed)
